@@ -411,7 +411,18 @@ def extract_lexer(src, file, cls, _seen=None):
 
 # -- parser --------------------------------------------------------------------------------------
 
-def _prec_table(node, file):
+def _prec_table(node, file, module=None):
+    # module-level `NAME = ('A', 'B', ...)` assigned once: a row may splat it in (`('left', *_ADDITIVE)`)
+    consts = {}
+    if module is not None:
+        stores = {}
+        for x in ast.walk(module):
+            if isinstance(x, ast.Name) and isinstance(x.ctx, (ast.Store, ast.Del)):
+                stores[x.id] = stores.get(x.id, 0) + 1
+        for st in module.body:
+            if isinstance(st, ast.Assign) and len(st.targets) == 1 and isinstance(st.targets[0], ast.Name) and stores.get(st.targets[0].id) == 1 \
+                    and isinstance(st.value, (ast.Tuple, ast.List)) and all(const_str(e) is not None for e in st.value.elts):
+                consts[st.targets[0].id] = [e.value for e in st.value.elts]
     if not isinstance(node, (ast.Tuple, ast.List)):
         raise AnalysisError(f'{file}:{node.lineno}: precedence is not a tuple literal')
     table = []
@@ -427,6 +438,8 @@ def _prec_table(node, file):
                 terms.append(e.id)
             elif const_str(e) is not None:
                 terms.append(e.value)
+            elif isinstance(e, ast.Starred) and isinstance(e.value, ast.Name) and e.value.id in consts:
+                terms.extend(consts[e.value.id])
             else:
                 raise AnalysisError(f'{file}:{e.lineno}: unmodelled precedence term {unparse(e)}')
         table.append((assoc, terms, row.lineno))
@@ -476,7 +489,7 @@ def extract_parser(src, file, cls, lexer=None):
     if 'error' in g.tokens:
         raise AnalysisError(f'{cls}: token named error')
     if prec_node is not None:
-        g.precedence = _prec_table(prec_node, file)
+        g.precedence = _prec_table(prec_node, file, src.tree(file))
     for lvl, (assoc, terms, _ln) in enumerate(g.precedence, 1):
         for t in terms:
             if t in g.precmap:
